@@ -4,6 +4,10 @@ Level: *partial* for this technique.  Lean proves non-interference of the invent
 other hidden state exists is established here: the AST inventory (tools/scan_state.py) must equal the reviewed
 baseline committed in Props/C19.lean, and ~210 public codec entry points are run in random interleavings, every
 result compared with the same call executed FIRST in a fresh interpreter state (c19_worker.py fork server).
+For every entry point, argument VARIANTS (arg_variants / spec_variants: values a coarse memo key would identify - other
+bit order, other type, lost length / padding, masked, one argument replaced, the caller's buffer re-used) are called
+back to back; returned buffers are overwritten by the caller and the call repeated; returned objects stay held and
+must neither change under later calls nor be handed out twice.
 """
 import json
 import os
@@ -233,6 +237,13 @@ def arg_variants(e, r):
             out.append(("tobytes-padding", [t, s[: -min(tz, r.choice([1, 3, 7]))]]))
         # equal and hash-equal, another type
         out.append(("frozen-bitarray", ["fb" if t == "b" else "fbl", s]))
+        # a key that looks at a part of the buffer only (a header, the first / last octets, the length)
+        if len(s) >= 2:
+            out.append(("same-prefix", [t, s[:-1] + ("1" if s[-1] == "0" else "0")]))
+            out.append(("same-suffix", [t, ("1" if s[0] == "0" else "0") + s[1:]]))
+        if len(s) >= 3:
+            k = len(s) // 2
+            out.append(("same-ends", [t, s[:k] + ("1" if s[k] == "0" else "0") + s[k + 1 :]]))
     elif t in ("x", "xa"):
         h = e[1]
         # bytes == bytearray == memoryview (and hash(bytes) == hash(memoryview))
@@ -245,6 +256,12 @@ def arg_variants(e, r):
         out.append(("zero-padding", [t, h + "00"]))
         if h.endswith("00") and len(h) > 2:
             out.append(("zero-padding", [t, h[:-2]]))
+        if len(h) >= 4:
+            out.append(("same-prefix", [t, h[:-2] + f"{int(h[-2:], 16) ^ 0x01:02x}"]))
+            out.append(("same-suffix", [t, f"{int(h[:2], 16) ^ 0x80:02x}" + h[2:]]))
+        if len(h) >= 6:
+            k = len(h) // 4 * 2
+            out.append(("same-ends", [t, h[:k] + f"{int(h[k : k + 2], 16) ^ 0x10:02x}" + h[k + 2 :]]))
     elif t == "i":
         v = e[1]
         # 1 == True == 1.0 == numpy.int64(1), all with the same hash (functools.lru_cache(typed=False), dict keys)
@@ -255,7 +272,8 @@ def arg_variants(e, r):
         if -(2**63) <= v < 2**63:
             out.append(("int-type", ["npi", v]))
         # the same value under a mask (v & 0xFF, v % 65536, …)
-        out.append(("int-mask", ["i", v ^ (1 << r.choice([8, 16, 24, 32]))]))
+        # (small values may be counts / sizes: only bit 8 is toggled there, a 4 GiB buffer is not a codec call)
+        out.append(("int-mask", ["i", v ^ (1 << (r.choice([8, 16, 24, 32]) if abs(v) >= 256 else 8))]))
     elif t == "f":
         if float(e[1]).is_integer():
             out.append(("int-type", ["i", int(e[1])]))
@@ -690,7 +708,8 @@ def source_fingerprint():
 
 
 def key_of(spec):
-    return json.dumps(spec, sort_keys=True)
+    """identity of a call = entry point + arguments (what the caller does with the result afterwards, "m", is not part of it)"""
+    return json.dumps({"ep": spec["ep"], "a": spec["a"]}, sort_keys=True)
 
 
 # ------------------------------------------------------------------------------------------------
@@ -703,7 +722,15 @@ def run(ctx):
         "interpreter (reference) and a sample in brand-new interpreters; then random interleavings of pool calls run in one process "
         "each and every result / argument buffer / shared-state probe is compared with the reference; plus each call twice in a row, "
         "ordered pairs of entry points that share inventoried state (A;B and B;A), long chained histories, and two different "
-        "deterministic time/random settings.  A case = one executed call inside a history; non-trivial unless the call raised."
+        "deterministic time/random settings.  Argument VARIANTS (for every entry point, a fixed number per class): pairs of calls "
+        "f(x), f(x') where x' compares equal to x or collides with it under a coarse key but is another value for the callee - same "
+        "0/1 values in the other bit order, same buffer octets in the other bit order, leading / trailing zeros (ba2int, tobytes, "
+        "int.from_bytes, rstrip), frozenbitarray, bytes / bytearray / memoryview, int / bool / float / numpy.int64, a value equal under a "
+        "mask, normalised text, array element type, dict order, same prefix / suffix / ends, ONE argument replaced by that of another pool call, "
+        "the very same buffer object re-used by the caller with replaced content, the same data handed to another entry point sharing "
+        "state - run back to back as f(x); f(x'); f(x); f(x').  After some calls the caller overwrites the buffers it got back and calls "
+        "again; every object returned inside a history of <= 40 calls is held and examined again after the last call.  "
+        "A case = one executed call inside a history; non-trivial unless the call raised."
     )
     ctx.trusted_base += [
         "Lean 4.33 kernel",
@@ -711,7 +738,7 @@ def run(ctx):
         "the reviewed inventory baseline in Props/C19.lean (a human judged every item)",
         "hand-written model of the inventoried state (Model/Purity.lean) tied to the code by this run's correspondence",
         "os.fork(): a forked copy of a just-imported interpreter is taken as a fresh interpreter state (validated against brand-new interpreters on a sample every run)",
-        "the canonical form (c19_worker.canon): all instance fields recursively, enums by name, buffers as bits/hex; CRC scratch registers and the import-day of the default GPSData are masked",
+        "the canonical form (c19_worker.canon): all instance fields recursively, enums by name, buffers as bits/hex; CRC scratch registers, the import-day of the default GPSData and the address inside text made of a memoryview ARGUMENT ('<memory at 0x…>') are masked",
     ]
     ctx.assumptions += [
         "purity is claimed for the catalogued public codec entry points (CRC, FEC, PDU, burst, Hytera, Motorola, utils), not for the protocol handlers / storage / transmission tracker (C08, C17, C18, C20)",
@@ -752,7 +779,9 @@ def run(ctx):
     for nm in names:
         quota = {}
         for s in pool[nm][: 4 * kvar]:
-            for cls, sa, sb in spec_variants(s, r, [o for o in pool[nm] if o is not s]):
+            vs = spec_variants(s, r, [o for o in pool[nm] if o is not s])
+            r.shuffle(vs)  # a class with several members (int-type, bytes-type, array-type) does not always spend its quota on the first
+            for cls, sa, sb in vs:
                 if quota.get(cls, 0) < kvar and in_domain(sa) and in_domain(sb):
                     quota[cls] = quota.get(cls, 0) + 1
                     var_pairs.append((cls, sa, sb))
@@ -760,8 +789,42 @@ def run(ctx):
             ctx.count(f"variant:{cls}", n)
         if quota:
             ctx.count("variant:entry-points")
+    # the same data handed to two entry points that share inventoried state (a memo shared by calculators / codecs whose
+    # key drops the configuration or the entry point)
+    kind = {"b": "bits", "bl": "bits", "x": "bytes", "xa": "bytes"}
+
+    def first_buf(spec):
+        return next((j for j, e in enumerate(spec["a"]) if e[0] in kind), None)
+
+    cross = []
+    alltags = sorted({t for nm in names for t in CAT[nm]["tags"]})
+    for t in alltags:
+        grp = [nm for nm in names if t in CAT[nm]["tags"]]
+        pairs = [(a, b) for a in grp for b in grp if a != b]
+        r.shuffle(pairs)
+        n = 0
+        for a, b in pairs:
+            if n >= min(ctx.budget(40, 400), 400):
+                break
+            sa, sb0 = r.choice(pool[a]), r.choice(pool[b])
+            ja, jb = first_buf(sa), first_buf(sb0)
+            if ja is None or jb is None:
+                continue
+            e = sa["a"][ja]
+            if kind[e[0]] != kind[sb0["a"][jb][0]]:
+                if kind[e[0]] == "bytes":
+                    e = B(hex2bits(e[1]))
+                elif len(e[1]) % 8 == 0 and e[0] == "b":
+                    e = X(f"{int(e[1], 2):0{len(e[1]) // 4}x}" if e[1] else "")
+                else:
+                    continue
+            sb = {"ep": b, "a": sb0["a"][:jb] + [e] + sb0["a"][jb + 1 :]}
+            if in_domain(sb):
+                cross.append((sa, sb))
+                n += 1
+    ctx.count("variant:same-data-other-entry-point", len(cross))
     hist_corpus = corpus_specs()
-    all_specs = [s for nm in names for s in pool[nm]] + [x for _, sa, sb in var_pairs for x in (sa, sb)]
+    all_specs = [s for nm in names for s in pool[nm]] + [x for _, sa, sb in var_pairs for x in (sa, sb)] + [sb for _, sb in cross]
     for _, calls in hist_corpus:
         for s in calls:
             all_specs.append(s)
@@ -769,6 +832,8 @@ def run(ctx):
     for s in all_specs:
         uniq.setdefault(key_of(s), s)
     ulist = list(uniq.values())
+    pool_keys = {key_of(s) for nm in names for s in pool[nm]} | {key_of(s) for _, calls in hist_corpus for s in calls}
+    dropped = set()
     ctx.count("pool:specs", len(ulist))
     ctx.count("pool:entry-points", len(names))
 
@@ -781,7 +846,11 @@ def run(ctx):
         for s, res in zip(c, rr["r"]):
             ref[key_of(s)] = res
             if res[0].startswith("ERR worker"):
-                raise Infra(f"reference call failed in the worker: {s} -> {res[0]}")
+                if key_of(s) in pool_keys:
+                    raise Infra(f"reference call failed in the worker: {s} -> {res[0]}")
+                # a derived variant the interpreter does not survive (time / memory): not a codec call, the pair is dropped
+                dropped.add(key_of(s))
+                ctx.count("variant:dropped-worker-error")
     pristine = parallel([{"op": "probe"}], 1)[0].get("probe")
     if not pristine:
         raise Infra("state probe failed")
@@ -803,7 +872,7 @@ def run(ctx):
 
     # ---------------- brand-new interpreters on a sample (validates the fork server; catches import-order effects)
     nfresh = ctx.budget(24, 160)
-    sample = [ulist[i] for i in sorted(r.sample(range(len(ulist)), min(nfresh, len(ulist))))]
+    sample = [ulist[i] for i in sorted(r.sample(range(len(ulist)), min(nfresh, len(ulist)))) if key_of(ulist[i]) not in dropped]
     fres = fresh_one(sample)
     for s, fr in zip(sample, fres):
         ctx.case(("fresh", key_of(s)))
@@ -820,9 +889,23 @@ def run(ctx):
         for s in pool[nm][: ctx.budget(3, 12)]:
             histories.append(("twice", [s, s]))
     # variants back to back on the same entry point: f(x); f(x'); f(x)  and  f(x'); f(x); f(x')
+    # (the property quantifies over all histories, so several pairs share one process: the state probe is what costs)
+    CH = 5
+    by_cls = {}
+    var_pairs = [(c, sa, sb) for c, sa, sb in var_pairs if key_of(sa) not in dropped and key_of(sb) not in dropped]
+    cross = [(sa, sb) for sa, sb in cross if key_of(sb) not in dropped]
     for cls, sa, sb in var_pairs:
-        histories.append((f"variant:{cls}", [sa, sb, sa]))
-        histories.append((f"variant:{cls}", [sb, sa, sb]))
+        # held-buffer: the very same object twice with the same content, then with the content replaced by the caller
+        by_cls.setdefault(cls, []).append([sa, sa, sb, sb, sa] if cls == "held-buffer" else [sa, sb, sa, sb])
+    for sa, sb in cross:
+        by_cls.setdefault("same-data-other-entry-point", []).append([sa, sb, sa, sb])
+    for cls in sorted(by_cls):
+        for i in range(0, len(by_cls[cls]), CH):
+            histories.append((f"variant:{cls}", [c for blk in by_cls[cls][i : i + CH] for c in blk]))
+    # the caller overwrites the buffers it got back, then makes the same call again (a result that aliases library state)
+    scr = [[dict(s, m=1), s, dict(s, m=1), s] for nm in names for s in pool[nm][:kvar]]
+    for i in range(0, len(scr), CH):
+        histories.append(("scribble", [c for blk in scr[i : i + CH] for c in blk]))
     # ordered pairs of entry points sharing inventoried state: A;B and B;A
     tags = sorted({t for nm in names for t in CAT[nm]["tags"]})
     npairs = 0
@@ -854,9 +937,12 @@ def run(ctx):
         histories.append(("long", calls))
 
     t0 = time.time()
-    resp = parallel([{"op": "seq", "calls": calls, "probe": True} for _, calls in histories], ncpu)
+    # every object returned inside a (short) history stays held by the caller and is examined again after the last call
+    resp = parallel([{"op": "seq", "calls": calls, "probe": True, "hold": len(calls) <= 40} for _, calls in histories], ncpu)
     ctx.notes.append(f"{len(histories)} histories ({sum(len(c) for _, c in histories)} calls) in {time.time() - t0:.1f}s")
     bad_hist = []
+    held_bad = []
+    alias_bad = []
     state_changed = []
     for (label, calls), rr in zip(histories, resp):
         ctx.count(f"history:{label.split(':')[0]}")
@@ -871,6 +957,15 @@ def run(ctx):
                 bad_hist.append((label, calls, i, exp[0], res[0]))
             for ch in res[1]:
                 fail("argument-mutated", {"history": calls[: i + 1][-50:], "index": min(i, 49), "argument": ch[0]}, f"{s['ep']} altered its argument buffer #{ch[0]}", expected=ch[1], actual=ch[2])
+        for ch in rr.get("held_changed") or []:
+            ctx.count("held-results-changed")
+            held_bad.append((label, calls, ch))
+        for al in rr.get("held_alias") or []:
+            ctx.count("held-results-aliased")
+            # an in-place repair hands back its argument; with a buffer the caller re-uses that is one object by the caller's doing
+            alias_bad.append((label, calls, al))
+        if "held_changed" in rr:
+            ctx.count("held-results-examined", len(calls))
         pr = rr.get("probe") or {}
         diff = sorted(k for k in set(pr) | set(pristine) if pr.get(k) != pristine.get(k))
         if diff:
@@ -903,6 +998,35 @@ def run(ctx):
                     bad_hist.append(("directed:" + label, pre + tail[: j + 1], len(pre) + j, ref[key_of(s)][0], res[0]))
                     break
         ctx.count("directed-search-histories", len(jobs))
+
+    # results the caller still holds that changed under later calls: shrink to (the call, one later call) where possible
+    for label, calls, ch in held_bad[:4]:
+        i = ch[0]
+        best, bch = calls, ch
+        cands = [[calls[i], c] for c in calls[i + 1 :][:40]] + [calls[i:]]
+        rs = parallel([{"op": "seq", "calls": c, "probe": False, "hold": True} for c in cands], ncpu)
+        for c, rr in zip(cands, rs):
+            hc = [x for x in (rr.get("held_changed") or []) if x[0] == 0]
+            if hc:
+                best, bch = c, hc[0]
+                break
+        fail("returned-object-changed-later", {"history": best, "index": bch[0], "found_in": label},
+             f"the object returned by call #{bch[0]} ({best[bch[0]]['ep']}) changed while the later call(s) were made: results share a buffer with library state or with each other",
+             expected=bch[1], actual=bch[2])
+    for _ in held_bad[4:]:
+        ctx.count("fail:returned-object-changed-later")
+
+    for label, calls, al in alias_bad[:3]:
+        i, j, tn = al
+        best, bi, bj = calls[: j + 1], i, j
+        rr = parallel([{"op": "seq", "calls": [calls[i], calls[j]], "probe": False, "hold": True}], 1)[0]
+        if any(x[0] == 0 and x[1] == 1 for x in rr.get("held_alias") or []):
+            best, bi, bj = [calls[i], calls[j]], 0, 1
+        fail("returned-objects-alias", {"history": best, "index": bj, "other": bi, "found_in": label},
+             f"call #{bi} ({best[bi]['ep']}) and call #{bj} ({best[bj]['ep']}) returned the very same mutable {tn} object: what the caller does to one result shows in the other",
+             expected="two objects", actual=f"one {tn}")
+    for _ in alias_bad[3:]:
+        ctx.count("fail:returned-objects-alias")
 
     # shrink the first few history-dependent results to a short reproducing history
     for label, calls, i, exp, act in bad_hist[:6]:
@@ -969,8 +1093,13 @@ def replay(obj):
     if not hist:
         print("no history recorded (proof / correspondence replay): see 'no_longer_checks' / 'correspondence_differences' in the file")
         return 1
-    rr = parallel([{"op": "seq", "calls": hist, "probe": True}, {"op": "first", "specs": [hist[-1]]}, {"op": "probe"}], 1)
+    rr = parallel([{"op": "seq", "calls": hist, "probe": True, "hold": True}, {"op": "first", "specs": [hist[-1]]}, {"op": "probe"}], 1)
     seq, first, pristine = rr[0], rr[1]["r"][0], rr[2]["probe"]
+    held = (seq.get("held_changed") or []) + (seq.get("held_alias") or [])
+    for ch in seq.get("held_changed") or []:
+        print(f"the object returned by call #{ch[0]} ({hist[ch[0]]['ep']}) changed afterwards: {ch[1]} -> {ch[2]}")
+    for al in seq.get("held_alias") or []:
+        print(f"call #{al[0]} and call #{al[1]} returned the very same mutable {al[2]} object")
     last = seq["r"][-1]
     print(f"history of {len(hist)} call(s); last call: {hist[-1]['ep']} {json.dumps(hist[-1]['a'])[:300]}")
     ex = explain(hist)
@@ -991,4 +1120,4 @@ def replay(obj):
         amb = a != b or a != first[0]
     print("expected:", f.get("expected"))
     print("actual  :", f.get("actual"))
-    return 1 if (last[0] != first[0] or mutated or diff or amb) else 0
+    return 1 if (last[0] != first[0] or mutated or diff or amb or held) else 0
